@@ -55,10 +55,22 @@ def generate(rng, tier):
         n = rng.randint(4, 12)
         b = bytes(rng.getrandbits(8) for _ in range(n))
         out.append((f"p32 {b.hex()} {rng.randint(0, n - 4)}", True))
+    # fixed-width integers at offsets beyond 65535 (offsets are size_t, not 16-bit): on both sides of 65536 and far beyond
+    big = bytes(rng.getrandbits(8) for _ in range(65536 + 300))
+    big2 = bytes((i * 7 + 3) & 255 for i in range(131072 + 16))
+    for off in (65533, 65534, 65535, 65536, 65537, 65540, 65536 + 255, 65536 + 256):
+        out.append((f"p16 {big.hex()} {off}", True))
+        out.append((f"p32 {big.hex()} {off}", True))
+    for off in (131071, 131072, 131073, 131080):
+        out.append((f"p16 {big2.hex()} {off}", True))
+        out.append((f"p32 {big2.hex()} {off}", True))
     # varuint: boundary encodings
     hand = ["-", "00", "7f", "80", "8000", "ff7f", "ffffffff0f", "ffffffff10", "ffffffff7f", "ffffffff8f00",
             "808080808000", "8080808000", "80808080808080808001", "ffffffffffffffffff", "8080808010",
-            "ffffffff0f99", "81808080808080", "0180", "ff", "ffff", "ffffff", "ffffffff", "ffffffffff"]
+            "ffffffff0f99", "81808080808080", "0180", "ff", "ffff", "ffffff", "ffffffff", "ffffffffff",
+            # a fifth byte whose excess bits are not the lowest one: 2^33, 2^34, 2^35 and mixtures (overflow, never a wrapped value)
+            "e480808020", "e48080802f", "8780808040", "878080804f", "8580808060", "858080806f", "8080808070", "ffffffff7e",
+            "808080801f", "8080808011"]
     for hx in hand:
         n = 0 if hx == "-" else len(hx) // 2
         for cl in range(n + 1):
